@@ -1,51 +1,83 @@
-"""mkmanifest.py -- regenerate MANIFEST.json from harness/props.py (run by hand after changing props)."""
+"""mkmanifest.py -- regenerate MANIFEST.json from harness/props.py + proofmap.py
+(run by hand after changing them)."""
 import json, os, sys
 HERE = os.path.dirname(os.path.abspath(__file__))
 sys.path.insert(0, HERE)
 import props as PR
 VERIF = os.path.dirname(HERE)
 ids = [json.loads(l)["id"] for l in open(os.path.join(VERIF, "properties.jsonl"))]
-NOT_YET = {"C19": "check under construction (DbFiles model, DESIGN.md section 7 C19); not yet claimed", "C20": "check under construction (DbFiles model, DESIGN.md section 7 C20); not yet claimed"}
+
+LEVEL_PROOF = (
+    "Machine-checked proof in Coq 8.16.1: the property is stated as theorems (coq/theories/Prop_%s.v: only `exact lemma` + "
+    "Print Assumptions, all closed under the global context) about a hand-written executable Gallina model of the server, for "
+    "every configuration, every reachable state and every event (inductive invariant preserved by all events incl. restarts and "
+    "crashes at every commit; exact characterisation of each command and sweep; two-run theorems where the property relates "
+    "histories) -- no bound on sizes, depths or steps. The model is tied to /repo on every run: constants and SQL scripts are "
+    "regenerated from the source and re-checked against the theorems' side conditions by vm_compute; everything else by a "
+    "differential correspondence check (extracted model vs the real code driven deterministically on generated and corpus "
+    "histories: every frame, every row of every table as seen by the server and by a second reader, subscriptions, commits, "
+    "exceptions), with the property's monitor run on the implementation's own traces to turn a divergence into a concrete "
+    "failing history. This level is right because the property quantifies over all histories / schedules / crash points / "
+    "configurations, which only an inductive proof covers; its force on the code is bounded by the correspondence check.")
+LEVEL_OTHER = (
+    "Same machinery as the proof-level properties (Coq theorems about the executable model + differential correspondence + "
+    "monitor), but the property's full statement is not proved: %s")
+NOTE = ("Trusted: Coq 8.16.1 kernel (vm_compute, no native_compute; no axioms -- Print Assumptions output is in the evidence); "
+        "harness/gen_instances.py; extraction (ExtrOcamlBasic only) + ocaml/driver.ml, validated on every build against "
+        "vm_compute (harness/selfcheck.py); the Python harness (differential testing: finite, seed-dependent); SQLite / sqlite3 / "
+        "Twisted / POSIX behaviour as modelled (DESIGN.md Part I section 8).")
+
 checks = []
 for pid in ids:
-    if pid in NOT_YET:
-        continue
     spec = PR.PROPS[pid]
     full = bool(spec.get("full"))
+    dbf = spec.get("engine") == "dbfiles"
+    if full:
+        text = LEVEL_PROOF % pid
+        if spec.get("missing"):
+            text += " Caveat stated in the theorems: " + spec["missing"]
+    else:
+        text = LEVEL_OTHER % spec.get("missing", "see DESIGN.md")
+    if dbf:
+        technique = ("Coq proof over an atomic-step model of database.py (crash = any prefix), vm_compute instance obligations on "
+                     "the SQL scripts regenerated from /repo, exhaustive crash-point correspondence against the real code")
+    else:
+        technique = ("Coq proof (inductive invariant / exact step characterisation / two-run theorem) about an executable Gallina "
+                     "model + differential correspondence with /repo + trace monitor for failing-input search")
     checks.append({
         "property_id": pid,
         "quick_cmd": "./check %s --tier quick" % pid,
         "thorough_cmd": "./check %s --tier thorough" % pid,
         "evidence_file": "evidence/%s.json" % pid,
         "replay_cmd_template": "./check replay {path}",
-        "engine": "coq-model",
-        "level_claimed": {
-            "category": "proof" if full else "other",
-            "text": spec.get("level_text") or (
-                "Machine-checked Coq theorems about an executable Gallina model of the server, tied to /repo on every run by "
-                "regenerated instance files and a differential correspondence check (extracted model vs real code on the same "
-                "histories, every frame and every row after every event), plus the property's monitor on implementation traces. "
-                + ("The full statement is proved." if full else
-                   "The full history-level statement is not (yet) proved for this property, so the level is `other`: "
-                   "the evidence names the theorems that are proved and what is missing.")),
-            "design_ref": "DESIGN.md section 7, " + pid,
-        },
-        "level_note": "Trusted: Coq 8.16.1 kernel; extraction (ExtrOcamlBasic) + ocaml/driver.ml; harness/*.py (differential testing, "
-                      "finite and seed-dependent); SQLite/sqlite3/Twisted behaviour as modelled in Store.v/Service.v (DESIGN.md section 8).",
-        "technique": spec.get("technique", "Coq proof about a Gallina model + differential correspondence with /repo + trace monitor"),
+        "engine": "coq-dbfiles" if dbf else "coq-model",
+        "level_claimed": {"category": "proof" if full else "other", "text": text,
+                          "design_ref": "DESIGN.md Part I sections 3-4 (as built), Part II section 7 " + pid},
+        "level_note": NOTE,
+        "technique": technique,
     })
+fixes = "812f825 aa38ff1 f4ffb42 20afac0 52b9a0a a6fd4b8"
 m = {
     "version": 1,
     "setup_cmd": "./check build",
     "hooks": {"guard": "WORMHOLE_MAILBOX_SERVER_VERIF",
-              "enable": "no source hooks: the harness drives /repo/src from outside (mock.patch, proxies); ./check exports the guard for its own processes only",
+              "enable": "no source hooks: the harness drives /repo/src from outside (mock.patch, proxies, subprocess kill points); "
+                        "./check exports the guard for its own processes only",
               "baseline_off_cmd": "cd /repo && /venv/bin/python -m pytest -ra -q -p no:cacheprovider --timeout=900 --continue-on-collection-errors",
               "source_commits": [], "add_only": True},
-    "engines": [{"name": "coq-model", "path": "coq/theories", "serves_properties": [c["property_id"] for c in checks],
-                 "kind_free_text": "Gallina model + theorems (Coq 8.16.1), extracted runner ocaml/modelrun, Python harness driving the real server"}],
+    "engines": [
+        {"name": "coq-model", "path": "coq/theories",
+         "serves_properties": [c["property_id"] for c in checks if c["engine"] == "coq-model"],
+         "kind_free_text": "Gallina model of server.py/server_websocket.py/server_tap.py + theorems (Coq 8.16.1), extracted runner "
+                           "ocaml/modelrun, Python harness driving the real server (harness/world.py, gen.py, streams.py, monitors.py, metamorphic.py)"},
+        {"name": "coq-dbfiles", "path": "coq/theories/DbFiles.v",
+         "serves_properties": [c["property_id"] for c in checks if c["engine"] == "coq-dbfiles"],
+         "kind_free_text": "Gallina model of database.py + theorems, evaluated by vm_compute; harness/dbfiles.py enumerates every crash "
+                           "point of the real entry points in killed subprocesses"}],
     "checks": checks,
-    "not_applicable": [{"property_id": p, "reason": r} for p, r in NOT_YET.items()],
-    "notes": "fix: commits in /repo: 812f825 aa38ff1 f4ffb42 20afac0 52b9a0a (see known_findings.txt, DESIGN.md section 6)",
+    "not_applicable": [],
+    "notes": "fix: commits in /repo: %s (known_findings.txt, DESIGN.md Part I section 5). Open known findings KF1-KF4 "
+             "(DESIGN.md Part I section 4)." % fixes,
 }
 json.dump(m, open(os.path.join(VERIF, "MANIFEST.json"), "w"), indent=1)
-print("checks:", len(checks), "not_applicable:", len(NOT_YET))
+print("checks:", len(checks), "proof:", sum(1 for c in checks if c["level_claimed"]["category"] == "proof"))
